@@ -107,6 +107,8 @@ class SocksModels(CommonModels):
             if pf is not None:
                 out.extend(ex.raise_(pf, ValueError, 'invalid length of packed IP address string'))
             return out
+        if obj is str and len(args) == 1 and isinstance(args[0], VOpaque) and args[0].kind == 'ipattr':
+            return [(path, VStr(ex.fresh_str(path, 'str_of_ipattr')))]
         if obj is ipaddress.ip_address:
             self.assumptions.add('ipaddress.ip_address(s): IPv4Address / IPv6Address / ValueError according to a '
                                  'fixed classifier ip_family(s) in {4, 6, 0}')
@@ -140,6 +142,14 @@ class SocksModels(CommonModels):
 
     def instantiable(self, cls):
         return False
+
+    def attr_hook(self, ex, path, obj, name):
+        if isinstance(obj, VInst) and obj.cls in (ipaddress.IPv4Address, ipaddress.IPv6Address) and not name.startswith('__'):
+            # attributes of an ipaddress object (ipv4_mapped, is_private, packed, exploded ...): nothing is known about them
+            self.assumptions.add('attributes of ipaddress objects are unconstrained values (None or some object)')
+            b = ex.fresh_bool(path, 'ipattr_is_none')
+            return [(path, VUnion([(b, NONE), (z3.Not(b), VOpaque('ipattr', ex.fresh_int(path, 'ipattr')))]))]
+        return CommonModels.attr_hook(self, ex, path, obj, name)
 
     def opaque_attr(self, ex, path, obj, name):
         return [(path, VBoundExt(obj, name))]
